@@ -218,6 +218,7 @@ func c20Protect(k *core.Case, m *abs.Msg, s ref.Suite) {
 		return
 	}
 	orig := append(message.IKEPayloadContainer{}, lm.Payloads...) // the caller's payload objects
+	callerSlice := lm.Payloads                                   // the very slice (same backing array) the caller handed over and may still hold
 	origObs := bridge.ObservePayloads(orig)
 	hdrBefore := *lm.IKEHeader
 	init := k.R.Bool()
@@ -231,6 +232,12 @@ func c20Protect(k *core.Case, m *abs.Msg, s ref.Suite) {
 	}
 	if err != nil {
 		return
+	}
+	for i := range callerSlice {
+		if callerSlice[i] != orig[i] {
+			k.Violate("impure", "protect-overwrites-callers-payload-slice", fmt.Sprintf("element %d of the payload slice the caller still holds was replaced by a %T", i, callerSlice[i]), w)
+			return
+		}
 	}
 	if !abs.EqualPayloads(origObs, bridge.ObservePayloads(orig)) {
 		k.Violate("impure", "protect-alters-callers-payloads", "the caller's original payload objects changed during protection", w)
